@@ -509,3 +509,333 @@ Proof.
   - rewrite app_nil_r, <- compact_runs. now symmetry.
   - apply compact_runs.
 Qed.
+
+(* ====================================================================== part 2: the queue set *)
+
+Lemma named_get_by_name n (qs : qset) : queue_named n qs = get_by_name n qs.
+Proof.
+  unfold queue_named, named. induction qs as [|p qs IH]; [reflexivity|].
+  cbn [find get_by_name]. destruct (N.eqb (fst p) n); [reflexivity | exact IH].
+Qed.
+
+Lemma arrived_arrivals n app : arrived n app = arrivals n app.
+Proof.
+  unfold arrived. induction app as [|p app IH]; [reflexivity|].
+  cbn [filter arrivals]. destruct (N.eqb (fst p) n); cbn [map]; now rewrite IH.
+Qed.
+
+Lemma arrivals_nil n : arrivals n [] = [].
+Proof. reflexivity. Qed.
+
+Lemma arrive_nil qs : arrive [] qs = qs.
+Proof.
+  induction qs as [|[n q] qs IH]; [reflexivity|].
+  unfold arrive in *. cbn [map fst snd arrivals]. rewrite app_nil_r. f_equal. exact IH.
+Qed.
+
+Lemma map_fst_arrive app qs : map fst (arrive app qs) = map fst qs.
+Proof. unfold arrive. rewrite map_map. reflexivity. Qed.
+
+Lemma map_fst_set_queue name q' qs : map fst (set_queue name q' qs) = map fst qs.
+Proof.
+  induction qs as [|p qs IH]; [reflexivity|]. cbn [set_queue].
+  destruct (N.eqb (fst p) name); cbn [map fst]; [reflexivity | now rewrite IH].
+Qed.
+
+Lemma get_arrive n app qs :
+  get_by_name n (arrive app qs) = option_map (fun q => q ++ arrivals n app) (get_by_name n qs).
+Proof.
+  unfold arrive. induction qs as [|p qs IH]; [reflexivity|].
+  cbn [map get_by_name fst snd]. destruct (N.eqb (fst p) n) eqn:E; [|exact IH].
+  apply N.eqb_eq in E. now rewrite E.
+Qed.
+
+Lemma get_set_same name q' qs q :
+  get_by_name name qs = Some q -> get_by_name name (set_queue name q' qs) = Some q'.
+Proof.
+  induction qs as [|p qs IH]; [discriminate|]. cbn [get_by_name set_queue].
+  destruct (N.eqb (fst p) name) eqn:E; intros H.
+  - cbn [get_by_name fst snd]. now rewrite E.
+  - cbn [get_by_name]. rewrite E. now apply IH.
+Qed.
+
+Lemma get_set_other n name q' qs :
+  n <> name -> get_by_name n (set_queue name q' qs) = get_by_name n qs.
+Proof.
+  intros Hn. induction qs as [|p qs IH]; [reflexivity|]. cbn [set_queue].
+  destruct (N.eqb (fst p) name) eqn:E.
+  - apply N.eqb_eq in E. cbn [get_by_name fst snd].
+    assert (F : N.eqb (fst p) n = false) by (apply N.eqb_neq; congruence). now rewrite F.
+  - cbn [get_by_name]. destruct (N.eqb (fst p) n); [reflexivity | exact IH].
+Qed.
+
+Lemma set_set name a b qs : set_queue name a (set_queue name b qs) = set_queue name a qs.
+Proof.
+  induction qs as [|p qs IH]; [reflexivity|]. cbn [set_queue].
+  destruct (N.eqb (fst p) name) eqn:E; cbn [set_queue fst]; rewrite E; [reflexivity | now rewrite IH].
+Qed.
+
+Lemma get_in_names n qs : In n (map fst qs) -> exists q, get_by_name n qs = Some q.
+Proof.
+  induction qs as [|p qs IH]; [contradiction|]. cbn [map get_by_name]. intros [H|H].
+  - subst n. rewrite N.eqb_refl. eauto.
+  - destruct (N.eqb (fst p) n); eauto.
+Qed.
+
+Lemma get_none_not_in n qs : get_by_name n qs = None <-> ~ In n (map fst qs).
+Proof.
+  split.
+  - intros H Hin. destruct (get_in_names n qs Hin) as [q Hq]. congruence.
+  - induction qs as [|p qs IH]; [reflexivity|]. cbn [map get_by_name]. intros H.
+    destruct (N.eqb (fst p) n) eqn:E.
+    + apply N.eqb_eq in E. exfalso. apply H. now left.
+    + apply IH. intros Hin. apply H. now right.
+Qed.
+
+(* ---- the function on a set ---- *)
+
+(* a task whose name points to no queue: nothing merged, every queue just receives its arrivals *)
+Lemma combine_set_no_queue stop t qs app :
+  ~ In (t_qn t) (map fst qs) -> combine_set stop t qs app = (None, arrive app qs).
+Proof. intros H. unfold combine_set. apply get_none_not_in in H. now rewrite H. Qed.
+
+Lemma combine_set_names stop t qs app : map fst (snd (combine_set stop t qs app)) = map fst qs.
+Proof.
+  unfold combine_set. destruct (get_by_name (t_qn t) qs); cbn [snd].
+  - now rewrite map_fst_set_queue, map_fst_arrive.
+  - apply map_fst_arrive.
+Qed.
+
+(* a run never touches a queue its task does not name *)
+Lemma combine_set_others stop t qs app n :
+  n <> t_qn t ->
+  get_by_name n (snd (combine_set stop t qs app))
+  = option_map (fun q => q ++ arrivals n app) (get_by_name n qs).
+Proof.
+  intros Hn. unfold combine_set. destruct (get_by_name (t_qn t) qs); cbn [snd].
+  - rewrite get_set_other by assumption. apply get_arrive.
+  - apply get_arrive.
+Qed.
+
+(* on the queue the task names, the call is the single-queue call of part 1 *)
+Lemma combine_set_own stop t qs app q :
+  get_by_name (t_qn t) qs = Some q ->
+  fst (combine_set stop t qs app) = fst (combine_concurrent stop t q (arrivals (t_qn t) app))
+  /\ get_by_name (t_qn t) (snd (combine_set stop t qs app))
+     = Some (snd (combine_concurrent stop t q (arrivals (t_qn t) app))).
+Proof.
+  intros H. unfold combine_set, combine_concurrent. rewrite H. cbn [fst snd]. split; [reflexivity|].
+  apply get_set_same with (q := q ++ arrivals (t_qn t) app).
+  rewrite get_arrive, H. reflexivity.
+Qed.
+
+(* ---- P_set on the model ---- *)
+
+Lemma named_ids n (qs : qset) :
+  named n (map (fun q : N * list task => (fst q, map t_id (snd q))) qs)
+  = option_map (map t_id) (get_by_name n qs).
+Proof.
+  unfold named. induction qs as [|p qs IH]; [reflexivity|].
+  cbn [map find get_by_name fst]. destruct (N.eqb (fst p) n); [reflexivity | exact IH].
+Qed.
+
+Lemma map_fst_ids (qs : qset) :
+  map fst (map (fun q : N * list task => (fst q, map t_id (snd q))) qs) = map fst qs.
+Proof. rewrite map_map. reflexivity. Qed.
+
+Lemma run_model_fst_snd i :
+  run_model i
+  = let p := combine_concurrent (stop_of (i_stop i)) (i_t i) (i_q i) (i_app i) in
+    mkObs (option_map (fun r => (r_ctxs r, r_mids r)) (fst p)) (map t_id (snd p)).
+Proof. unfold run_model. destruct (combine_concurrent _ _ _ _); reflexivity. Qed.
+
+Lemma P_set_holds i : P_set i (run_set i) = true.
+Proof.
+  unfold P_set. destruct (wf_set i); [|reflexivity].
+  unfold run_set. cbn [so_res so_queues].
+  rewrite map_fst_ids, combine_set_names, ns_eqb_refl. cbn [andb].
+  rewrite named_get_by_name.
+  destruct (get_by_name (t_qn (s_t i)) (s_qs i)) as [q|] eqn:Eq.
+  - (* the name points to a queue *)
+    apply andb_true_iff. split.
+    + apply forallb_forall. intros n Hn. destruct (N.eqb n (t_qn (s_t i))) eqn:En; [reflexivity|].
+      apply N.eqb_neq in En. cbn [orb]. unfold untouched.
+      destruct (get_in_names n (s_qs i) Hn) as [qn Hqn].
+      cbn [so_queues].
+      rewrite named_get_by_name, Hqn, named_ids, (combine_set_others _ _ _ _ n En), Hqn.
+      cbn [option_map]. rewrite arrived_arrivals. apply ns_eqb_refl.
+    + destruct (combine_set_own (stop_of (s_stop i)) (s_t i) (s_qs i) (s_app i) q Eq) as [Hr Hq].
+      rewrite named_ids, Hq, Hr. cbn [option_map]. rewrite arrived_arrivals.
+      pose proof (P_holds (mkIn (s_t i) (s_stop i) q (arrivals (t_qn (s_t i)) (s_app i)))) as HP.
+      rewrite run_model_fst_snd in HP. exact HP.
+  - (* the name points to no queue *)
+    destruct (mem_N (t_id (s_t i)) (all_ids (s_qs i))); [reflexivity|].
+    unfold combine_set. rewrite Eq. cbn [fst snd option_map is_none andb].
+    apply forallb_forall. intros n Hn. unfold untouched. cbn [so_queues snd].
+    destruct (get_in_names n (s_qs i) Hn) as [qn Hqn].
+    rewrite named_get_by_name, Hqn, named_ids, get_arrive, Hqn. cbn [option_map].
+    rewrite arrived_arrivals. apply ns_eqb_refl.
+Qed.
+
+(* ====================================================================== part 3: sessions *)
+
+Lemma task_eqb_refl t : task_eqb t t = true.
+Proof.
+  unfold task_eqb. rewrite !N.eqb_refl, Bool.eqb_reflx, ctxs_eqb_refl, ns_eqb_refl. reflexivity.
+Qed.
+Lemma tasks_eqb_refl l : tasks_eqb l l = true.
+Proof. apply list_eqb_refl, task_eqb_refl. Qed.
+
+Lemma same_queue_get before after n q :
+  get_by_name n before = Some q -> get_by_name n after = Some q -> same_queue before after n = true.
+Proof.
+  intros H1 H2. unfold same_queue. rewrite !named_get_by_name, H1, H2. apply tasks_eqb_refl.
+Qed.
+
+Lemma queue_nodup qs n q : NoDup (all_ids qs) -> get_by_name n qs = Some q -> NoDup (map t_id q).
+Proof.
+  induction qs as [|p qs IH]; [discriminate|]. unfold all_ids. cbn [flat_map get_by_name].
+  intros Hnd. destruct (N.eqb (fst p) n); intros H.
+  - inversion H; subst. exact (NoDup_app_l _ _ _ Hnd).
+  - apply IH; [exact (NoDup_app_r _ _ _ Hnd) | exact H].
+Qed.
+
+Lemma queue_meta qs n q :
+  forallb (fun p : N * list task => forallb t_meta (snd p)) qs = true ->
+  get_by_name n qs = Some q -> forallb t_meta q = true.
+Proof.
+  induction qs as [|p qs IH]; [discriminate|]. cbn [forallb get_by_name]. intros H.
+  apply andb_true_iff in H as [H1 H2]. destruct (N.eqb (fst p) n); intros E.
+  - inversion E; subst. exact H1.
+  - now apply IH.
+Qed.
+
+Lemma remove_id_head t r : remove_id (t_id t) (t :: r) = r.
+Proof. cbn [remove_id]. now rewrite N.eqb_refl. Qed.
+Lemma replace_id_head t t' r : t_id t' = t_id t -> replace_id t' (t :: r) = t' :: r.
+Proof. intros E. cbn [replace_id]. now rewrite E, N.eqb_refl. Qed.
+
+(* what the handler does with the head [t] of the queue its name points to *)
+Lemma head_run qs t rest :
+  t_meta t = true -> get_by_name (t_qn t) qs = Some (t :: rest) -> NoDup (map t_id (t :: rest)) ->
+  let b := block nostop t rest in
+  let C := t_ctxs t ++ flat_map t_ctxs b in
+  handle_hook_run t qs
+  = (mkRun (t_hook t) (if is_nil b then t_ctxs t else compact C),
+     mkTask (t_id t) (t_hook t) (t_ty t) true (if is_nil b then t_ctxs t else compact C)
+            (t_mids t ++ flat_map t_mids b) (t_qn t),
+     set_queue (t_qn t) (t :: after_block nostop t rest) qs).
+Proof.
+  intros Hm Hq Hnd. cbv zeta. unfold handle_hook_run, combine_set. rewrite Hq, arrive_nil.
+  cbn [arrivals fst snd].
+  assert (Hnd' : NoDup (map t_id (t :: rest ++ []))) by (now rewrite app_nil_r).
+  change (fun _ : task => false) with nostop.
+  rewrite (combine_at_char nostop t t rest [] Hm eq_refl Hnd'). rewrite !app_nil_r. rewrite Hm.
+  destruct (block nostop t rest) as [|b0 b] eqn:Eb; cbn [fst snd is_nil delivered_ctxs delivered_mids r_ctxs r_mids].
+  - cbn [flat_map]. now rewrite app_nil_r.
+  - f_equal. f_equal. f_equal.
+    destruct (t_mids t ++ flat_map t_mids (b0 :: b)) eqn:E; [|reflexivity].
+    apply app_eq_nil in E as [E1 E2]. now rewrite E1.
+Qed.
+
+Lemma wf_state_props qs :
+  wf_state qs = true ->
+  NoDup (all_ids qs) /\ forallb (fun p : N * list task => forallb t_meta (snd p)) qs = true.
+Proof.
+  unfold wf_state. intros H. apply andb_true_iff in H as [H Hm]. apply andb_true_iff in H as [_ Hn].
+  split; [now apply nodupb_NoDup | exact Hm].
+Qed.
+
+(* queues the task does not name are what they were *)
+Lemma others_same stop t qs n :
+  In n (map fst qs) -> n <> t_qn t ->
+  same_queue qs (snd (combine_set stop t qs [])) n = true.
+Proof.
+  intros Hin Hn. destruct (get_in_names n qs Hin) as [q Hq].
+  apply (same_queue_get _ _ _ q Hq). rewrite (combine_set_others stop t qs [] n Hn), Hq.
+  cbn [option_map arrivals]. now rewrite app_nil_r.
+Qed.
+
+Lemma handle_names t qs : map fst (snd (handle_hook_run t qs)) = map fst qs.
+Proof. unfold handle_hook_run. cbn [snd]. apply combine_set_names. Qed.
+
+Lemma handle_others t qs n :
+  n <> t_qn t -> get_by_name n (snd (handle_hook_run t qs)) = get_by_name n qs.
+Proof.
+  intros Hn. unfold handle_hook_run. cbn [snd]. rewrite (combine_set_others _ t qs [] n Hn).
+  destruct (get_by_name n qs); cbn [option_map arrivals]; [now rewrite app_nil_r | reflexivity].
+Qed.
+
+Lemma P_step_holds qs st : P_step qs st (model_step qs st) = true.
+Proof.
+  unfold P_step. destruct (wf_state qs) eqn:W; [|reflexivity].
+  destruct (wf_state_props qs W) as [Hnd Hmeta].
+  destruct st as [qn ok | t ok].
+  - (* the worker of queue qn *)
+    cbn [model_step]. rewrite named_get_by_name.
+    destruct (get_by_name qn qs) as [[|t rest]|] eqn:Eq.
+    + cbn [st_state st_runs is_nil]. rewrite ns_eqb_refl. cbn [andb].
+      apply forallb_forall. intros n Hn. destruct (get_in_names n qs Hn) as [q Hq].
+      exact (same_queue_get _ _ _ q Hq Hq).
+    + destruct (N.eqb (t_ty t) 0) eqn:Ety.
+      * (* a HookRun task *)
+        cbn [st_state st_runs st_success].
+        rewrite map_fst_set_queue, handle_names, ns_eqb_refl. cbn [andb].
+        apply andb_true_iff. split.
+        -- apply forallb_forall. intros n Hn.
+           destruct (N.eqb n qn) eqn:E1; [reflexivity|]. destruct (N.eqb n (t_qn t)) eqn:E2; [reflexivity|].
+           cbn [orb]. apply N.eqb_neq in E1, E2. destruct (get_in_names n qs Hn) as [q Hq].
+           apply (same_queue_get _ _ _ q Hq). rewrite get_set_other by assumption.
+           now rewrite handle_others.
+        -- destruct (N.eqb (t_qn t) qn) eqn:Eqn; [|reflexivity]. cbn [andb].
+           apply N.eqb_eq in Eqn. subst qn.
+           assert (Hm : t_meta t = true).
+           { pose proof (queue_meta qs _ _ Hmeta Eq) as H. cbn [forallb] in H. now apply andb_true_iff in H as [H _]. }
+           pose proof (head_run qs t rest Hm Eq (queue_nodup qs _ _ Hnd Eq)) as HR. cbv zeta in HR.
+           rewrite HR. cbn [fst snd]. rewrite named_get_by_name.
+           rewrite (get_set_same (t_qn t) (t :: after_block nostop t rest) qs _ Eq).
+           rewrite set_set, (get_set_same (t_qn t) _ qs _ Eq).
+           cbn [ru_hook ru_ctxs]. rewrite N.eqb_refl. cbn [andb].
+           destruct (block nostop t rest) as [|b0 b] eqn:Eb; cbn [is_nil orb flat_map].
+           ++ rewrite !app_nil_r, left_out_ok_refl. cbn [andb].
+              destruct ok; [rewrite remove_id_head | rewrite replace_id_head by reflexivity];
+                cbn [app]; apply tasks_eqb_refl.
+           ++ rewrite left_out_ok_compact, compact_runs, ctxs_eqb_refl. cbn [andb].
+              destruct ok; [rewrite remove_id_head | rewrite replace_id_head by reflexivity];
+                cbn [app]; apply tasks_eqb_refl.
+      * (* another task type: no hook run, removed *)
+        cbn [st_state st_runs st_success]. rewrite map_fst_set_queue, ns_eqb_refl. cbn [andb].
+        rewrite andb_true_r. apply forallb_forall. intros n Hn.
+        destruct (N.eqb n qn) eqn:E1; [reflexivity|]. cbn [orb]. apply N.eqb_neq in E1.
+        destruct (get_in_names n qs Hn) as [q Hq]. rewrite orb_true_iff. right.
+        apply (same_queue_get _ _ _ q Hq). now rewrite get_set_other.
+    + cbn [st_state st_runs is_nil]. rewrite ns_eqb_refl. cbn [andb].
+      apply forallb_forall. intros n Hn. destruct (get_in_names n qs Hn) as [q Hq].
+      exact (same_queue_get _ _ _ q Hq Hq).
+  - (* a task that sits in no queue *)
+    cbn [model_step st_state st_runs]. unfold handle_hook_run. cbn [fst snd].
+    rewrite combine_set_names, ns_eqb_refl. cbn [andb].
+    destruct (t_meta t && negb (mem_N (t_id t) (all_ids qs))); [|reflexivity].
+    apply andb_true_iff. split.
+    + apply forallb_forall. intros n Hn. destruct (N.eqb n (t_qn t)) eqn:E; [reflexivity|].
+      apply N.eqb_neq in E. cbn [orb]. now apply others_same.
+    + rewrite named_get_by_name. destruct (get_by_name (t_qn t) qs) eqn:Eq; [reflexivity|].
+      unfold combine_set. rewrite Eq. cbn [fst delivered_ctxs ru_hook ru_ctxs].
+      now rewrite N.eqb_refl, ctxs_eqb_refl.
+Qed.
+
+Lemma P_session_holds steps : forall qs, P_session qs steps (run_session qs steps) = true.
+Proof.
+  induction steps as [|st steps IH]; intros qs; [reflexivity|].
+  cbn [run_session P_session]. now rewrite P_step_holds, IH.
+Qed.
+
+(* the explicit form for the webhook handlers' tasks: a task whose name no queue has is run with
+   exactly its own contexts and the queue set afterwards IS the queue set before *)
+Lemma loose_run_leaves_queues qs t ok :
+  ~ In (t_qn t) (map fst qs) ->
+  model_step qs (SLoose t ok) = mkSO [mkRun (t_hook t) (t_ctxs t)] ok qs.
+Proof.
+  intros H. cbn [model_step]. unfold handle_hook_run.
+  rewrite (combine_set_no_queue _ t qs [] H), arrive_nil. reflexivity.
+Qed.
